@@ -279,6 +279,7 @@ def dg(cx):
 
                 def thunk():
                     objs = []
+                    keep = []
                     for k in range(n):
                         o = Obj("class", {"__name__": f"K{k}", "_gen_c_api": Builtin("api", lambda k=k: f"api{k}")}, name=f"K{k}")
                         objs.append(o)
@@ -286,10 +287,16 @@ def dg(cx):
                         deps = [objs[b] for a, b in edges if a == k]
                         # half through inner types, half through _depends_on (both sources must be honoured)
                         inner, declared = deps[::2], deps[1::2]
-                        objs[k].attrs["_get_inner_types"] = Builtin("inner", lambda inner=inner: list(inner))
+                        # (union references hand out their OWN member list, structs a new list: classes with an odd number
+                        # do the former -- sorting must leave members and declared dependencies as they were)
+                        own = list(inner)
+                        objs[k].attrs["_get_inner_types"] = Builtin("inner", (lambda own=own: own) if k % 2 else (lambda inner=inner: list(inner)))
                         objs[k].attrs["_depends_on"] = list(declared)
+                        keep.append((k, own, list(inner), objs[k].attrs["_depends_on"], list(declared)))
                     res = I.call(I.global_lookup("context", "sort_classes"), [[objs[r] for r in roots]], {})
                     out["res"] = [I.getattr(c, "__name__") for c in res]
+                    out["frame"] = [f"K{k}: " + ("members" if own != inner0 else "_depends_on") + f" changed from {[I.getattr(c, '__name__') for c in (inner0 if own != inner0 else decl0)]} to {[I.getattr(c, '__name__') for c in (own if own != inner0 else decl)]}"
+                                    for k, own, inner0, decl, decl0 in keep if own != inner0 or decl != decl0]
                     return None
 
                 res = I.explore(thunk, max_paths=4)
@@ -323,6 +330,11 @@ def dg(cx):
                     if f"K{a}" in pos and f"K{b}" in pos and pos[f"K{b}"] > pos[f"K{a}"]:
                         probs.append(f"K{b} is emitted after K{a}, which depends on it")
                         break
+                if out.get("frame") and not probs:
+                    bad_seen += 1
+                    if bad_seen <= 3:
+                        cx.bad(f, construct=f"{label}: sorting edits the classes", detail=out["frame"][0] + ": sort_classes must only read the classes (the next build sees the edited members / dependencies: ids of union members shift, dependencies accumulate)", sub="frame")
+                    continue
                 if probs:
                     bad_seen += 1
                     if bad_seen <= 3:
@@ -390,3 +402,63 @@ def dg(cx):
     if not bad_seen:
         cx.ok(f, construct=f"{n_graphs} (graph, roots) cases over up to {nmax} classes", detail="every reachable class exactly once and after its dependencies; cycles refused")
     cx.need(n_graphs >= 150, f"only {n_graphs} graphs evaluated")
+
+
+@rule("D7", ["C14"], "classes made one after the other: the dependency / source / kernel containers of a class are its own (defining another class, also a hybrid class declaring dependencies, leaves them as they were), and sort_classes of a class defined EARLIER is unchanged by later definitions")
+def d7(cx):
+    """Class definition is a history too: metaclasses run once per class statement and hybrid classes EXTEND the
+    `_depends_on` of their struct in place.  Evaluated in one interpreter: struct S1 (no declared dependencies), struct
+    Dep, derived struct S3(S1), then hybrid classes H (declares `_depends_on = [Dep]`) and G (declares none).  Required:
+    `_depends_on`, `_extra_c_sources`, `_kernels` of S1, Dep, S3, H._XoStruct, G._XoStruct and the base class are pairwise
+    distinct objects; after all definitions S1 / S3 / G._XoStruct still declare nothing and H._XoStruct declares exactly
+    Dep; sort_classes([S1]) = [S1] and sort_classes([H._XoStruct]) = [Dep, H._XoStruct]."""
+    from ..peval import Interp, Obj
+    from .layout import Lab
+
+    m = cx.m
+    f = m.func("struct::MetaStruct.__new__")
+    m.func("hybrid_class::MetaHybridClass.__new__")
+    lab = Lab(m)
+    I = lab.I
+    out = {}
+
+    def thunk():
+        F = I.global_lookup("scalar", "Float64")
+        S0 = I.global_lookup("struct", "Struct")
+        S1 = lab.struct("S1", [("a", F)])
+        Dep = lab.struct("Dep", [("d", F)])
+        MS = I.global_lookup("struct", "MetaStruct")
+        S3 = I.call(I.class_attrs(MS)["__new__"], [MS, "S3", (S1,), {"b": F}], {})
+        MH = I.global_lookup("hybrid_class", "MetaHybridClass")
+        HC = I.global_lookup("hybrid_class", "HybridClass")
+        H = I.call(I.getattr(MH, "__new__"), [MH, "H", (HC,), {"_xofields": {"x": F}, "_depends_on": [Dep]}], {})
+        G = I.call(I.getattr(MH, "__new__"), [MH, "G", (HC,), {"_xofields": {"y": F}}], {})
+        classes = {"Struct": S0, "S1": S1, "Dep": Dep, "S3": S3, "H._XoStruct": I.getattr(H, "_XoStruct"), "G._XoStruct": I.getattr(G, "_XoStruct")}
+        out["attrs"] = {nm: {a: I.getattr(c, a) if I.hasattr(c, a) is True else None for a in ("_depends_on", "_extra_c_sources", "_kernels")} for nm, c in classes.items()}
+        sc = I.global_lookup("context", "sort_classes")
+        out["sorted"] = {nm: [I.getattr(c, "__name__") for c in I.call(sc, [[classes[nm]]], {})] for nm in ("S1", "S3", "G._XoStruct", "H._XoStruct")}
+        out["names"] = {nm: [I.getattr(c, "__name__") for c in v["_depends_on"]] if v["_depends_on"] is not None else None for nm, v in out["attrs"].items()}
+        return None
+
+    res = I.explore(thunk, max_paths=8)
+    if len(res) != 1 or res[0]["exc"] is not None:
+        e = res[0]["exc"]
+        if e is not None and e.etype == "ValueError":
+            cx.bad(f, construct="struct S1; struct Dep; struct S3(S1); hybrid H(_depends_on=[Dep]); hybrid G; sort_classes", detail=f"raises ValueError: {e.msg} -- an acyclic set of classes is refused after these definitions", sub="history")
+            return
+        raise AnalysisError(f"[D7] class definitions cannot be evaluated: {e.etype + ': ' + str(e.msg) if e else res[0]['conds']}")
+    at = out["attrs"]
+    names = list(at)
+    for a in ("_depends_on", "_extra_c_sources", "_kernels"):
+        shared = [(x, y) for i, x in enumerate(names) for y in names[i + 1:] if at[x][a] is not None and at[x][a] is at[y][a]]
+        cx.check(not shared, f, construct=f"`{a}` of Struct, S1, Dep, S3(S1), H._XoStruct, G._XoStruct", detail="six distinct containers: a class extending its own does not edit another class's",
+                 bad_detail=(f"{shared[0][0]} and {shared[0][1]} share ONE `{a}` object ({len(shared)} shared pairs): whatever one class (a hybrid class declaring dependencies extends it in place) adds, every other class gets too" if shared else ""), sub="own")
+    want = {"S1": [], "Dep": [], "S3": [], "G._XoStruct": [], "H._XoStruct": ["Dep"]}
+    wrong = {k: out["names"][k] for k in want if out["names"][k] != want[k]}
+    cx.check(not wrong, f, construct="declared dependencies after all definitions: " + ", ".join(f"{k}: {out['names'][k]}" for k in want), detail="only H declares a dependency (Dep)",
+             bad_detail=(f"{next(iter(wrong))} now declares {wrong[next(iter(wrong))]}: a later class definition changed the dependencies of an earlier / unrelated class" if wrong else ""), sub="history")
+    wants = {"S1": ["S1"], "S3": ["S3"], "G._XoStruct": ["G"], "H._XoStruct": ["Dep", "H"]}
+    for k, w in wants.items():
+        got = out["sorted"][k]
+        ok = got == w or (k.endswith("_XoStruct") and [g.replace("Data", "").replace("_XoStruct", "") for g in got] == w) or (len(got) == len(w) and got[:-1] == w[:-1])
+        cx.check(ok, f, construct=f"sort_classes([{k}]) = {got}", detail="the class and exactly what it depends on", bad_detail=f"expected {w} (own class last): classes defined later leak into the dependencies of this one", sub="history")
